@@ -14,9 +14,11 @@ import Koreo.Lemmas.CompareComplete
 import Koreo.Lemmas.ComparePatch
 import Koreo.Lemmas.CompareStrip
 import Koreo.Lemmas.Reconcile45
+import Koreo.Lemmas.CompareLaShape
+import Koreo.Lemmas.OwnerRefs
 
 namespace Koreo.C04
-open Koreo Koreo.JVal Koreo.Compare Koreo.R45
+open Koreo Koreo.JVal Koreo.Compare Koreo.R45 Koreo.Overlay
 
 /-- the stated domain of the fixpoint clauses: directives well formed, maps with distinct keys,
     no explicit nulls, and the target does not itself set koreo's last-applied annotation -/
@@ -43,9 +45,22 @@ theorem meets_implies_match (t live la : JVal) (hw : DirectivesWF t) (hm : Meets
     applies) sends nothing, leaves the cluster as it is and hands the live object on to
     postconditions / return value -/
 theorem no_mutation_at_target (c : Cfg) (t live la : JVal) (hw : DirectivesWF t)
-    (hla : extractLastApplied c.codec live = some la) (hm : Meets t live la) (ho : ownerOk c = true) :
+    (hla : extractLastApplied c.codec live = some la) (hm : Meets t live la)
+    (ho : ownerFixOf c live = some .none) :
     pass c t (some live) = [⟨some live, .okLive live, []⟩] := by
-  simp only [pass, passPresent, hla, meets_implies_match t live la hw hm, ho, ↓reduceIte, unchanged]
+  simp only [pass, passPresent, ho, hla, meets_implies_match t live la hw hm, OwnerFix.isNone, ↓reduceIte,
+    unchanged]
+
+/-- … in particular when the parent's reference really is among the live owner references, whatever
+    other owners (before or after it) the object has, and when the function does not own at all -/
+theorem no_mutation_at_target_co_owned (c : Cfg) (t live la : JVal) (hw : DirectivesWF t)
+    (hla : extractLastApplied c.codec live = some la) (hm : Meets t live la)
+    (ho : refPresent c live = true ∨ c.shouldOwn = false) :
+    pass c t (some live) = [⟨some live, .okLive live, []⟩] := by
+  apply no_mutation_at_target c t live la hw hla hm
+  rcases ho with h | h
+  · exact ownerFix_of_present c live h
+  · simp [ownerFixOf, h]
 
 /-- the delay a mutating pass has to report: the create delay when the object was absent, the
     update policy's delay otherwise -/
@@ -72,9 +87,9 @@ theorem mutation_returns_retry (c : Cfg) (t : JVal) (cluster : Option JVal) (r :
       · simp only [List.mem_singleton] at hr; subst hr; simp at hmut
       · simp only [List.mem_singleton] at hr; subst hr; exact ⟨_, rfl, rfl⟩
   | some live =>
-    have hcorrect : ∀ r, r = correct c t live → (r.reqs ≠ [] ∨ r.cluster ≠ some live) →
+    have hcorrect : ∀ fix r, r = correct c fix t live → (r.reqs ≠ [] ∨ r.cluster ≠ some live) →
         ∃ d, configuredDelay c (some live) = some d ∧ r.outcome = .retry d := by
-      intro r hr hmut
+      intro fix r hr hmut
       subst hr
       unfold correct at hmut ⊢
       cases hp : c.policy with
@@ -92,45 +107,66 @@ theorem mutation_returns_retry (c : Cfg) (t : JVal) (cluster : Option JVal) (r :
     simp only [pass, passPresent] at hr
     split at hr
     · simp only [List.mem_singleton] at hr; subst hr; simp [raisedAt] at hmut
-    · split at hr
+    · rename_i fix _
+      split at hr
+      · simp only [List.mem_singleton] at hr; subst hr; simp [raisedAt] at hmut
       · split at hr
-        · simp only [List.mem_singleton] at hr; subst hr; simp [unchanged] at hmut
-        · simp only [List.mem_singleton] at hr; exact hcorrect r hr hmut
-      · rename_i d x _
-        simp only [List.mem_append] at hr
-        rcases hr with hr | hr
-        · cases d <;> simp only [↓reduceIte, List.mem_singleton, Bool.false_eq_true, List.not_mem_nil] at hr
-          exact hcorrect r hr hmut
-        · cases x <;> simp only [↓reduceIte, List.mem_singleton, Bool.false_eq_true, List.not_mem_nil] at hr
-          subst hr; simp [raisedAt] at hmut
+        · split at hr
+          · simp only [List.mem_singleton] at hr; subst hr; simp [unchanged] at hmut
+          · simp only [List.mem_singleton] at hr; exact hcorrect fix r hr hmut
+        · rename_i d x _
+          simp only [List.mem_append] at hr
+          rcases hr with hr | hr
+          · cases d <;> simp only [↓reduceIte, List.mem_singleton, Bool.false_eq_true, List.not_mem_nil] at hr
+            exact hcorrect fix r hr hmut
+          · cases x <;> simp only [↓reduceIte, List.mem_singleton, Bool.false_eq_true, List.not_mem_nil] at hr
+            subst hr; simp [raisedAt] at hmut
 
 /-! ## the mutation reaches the target -/
 
-/-- merge-patching the payload into *any* live object gives an object that meets the target, and
-    whose last-applied annotation reads back as the payload -/
+/-- merge-patching the payload into *any* live object gives an object that meets the target, whose
+    last-applied annotation reads back as the payload — and that payload is a well-shaped last-applied
+    tree for the target (no separate hypothesis about the annotation's shape) -/
 theorem patch_reaches_target (c : Codec) (t : JVal) (h : TargetOk t) (hc : c.reads (strip t)) :
-    ∃ body, prepareForApi c t = some body ∧ ∀ live,
+    ∃ body, prepareForApi c t = some body ∧ LaShaped t (strip t) ∧ ∀ live,
       Meets t (mergePatch live body) (strip t) ∧
       extractLastApplied c (mergePatch live body) = some (strip t) := by
   obtain ⟨body, hb, hf⟩ := payload_facts c t h.wf h.nodup h.annFree
-  exact ⟨body, hb, fun live => ⟨meets_mergePatch t body _ live h.nonulls hf.nodup hf.meets, hf.la live hc⟩⟩
+  exact ⟨body, hb, laOk_strip_self t h.wf h.nodup,
+    fun live => ⟨meets_mergePatch t body _ live h.nonulls hf.nodup hf.meets, hf.la live hc⟩⟩
 
-/-- the same at the level of a pass with update policy `patch` whose comparison reported differences:
-    exactly one PATCH, and the resulting object meets the target -/
+/-- the same at the level of a pass with update policy `patch` whose comparison reported differences
+    (owner reference in place): exactly one PATCH, and the resulting object meets the target -/
 theorem patch_pass_reaches_target (c : Cfg) (t live : JVal) (d : JVal) (h : TargetOk t)
-    (hc : c.codec.reads (strip t)) (hp : c.policy = .patch d) (ho : c.ownerFix = .none) :
-    ∃ body, correct c t live = ⟨some (mergePatch live body), .retry d, [.patch body]⟩ ∧
+    (hc : c.codec.reads (strip t)) (hp : c.policy = .patch d) :
+    ∃ body, correct c .none t live = ⟨some (mergePatch live body), .retry d, [.patch body]⟩ ∧
       Meets t (mergePatch live body) (strip t) := by
-  obtain ⟨body, hb, hall⟩ := patch_reaches_target c.codec t h hc
-  exact ⟨body, by simp [correct, hp, ho, hb, dropOwnerRefs, h.ownerFree], (hall live).1⟩
+  obtain ⟨body, hb, _, hall⟩ := patch_reaches_target c.codec t h hc
+  exact ⟨body, by simp [correct, hp, hb, dropOwnerRefs, h.ownerFree], (hall live).1⟩
 
-/-- creation: when what the create overlay produced does not contradict the target (explicit
-    hypothesis `hm`; `create_plain` below shows it holds when there is no create overlay), the pass
-    sends exactly one POST, reports Retry with the create delay, and the stored object meets the target -/
-theorem create_reaches_target (c : Cfg) (t body la : JVal) (he : c.createEnabled = true)
-    (hb : prepareForApi c.codec c.createView = some body) (hm : Meets t body la) :
-    pass c t none = [⟨some body, .retry c.createDelay, [.post body]⟩] ∧ Meets t body la := by
-  simp [pass, passAbsent, he, hb, hm]
+/-! ## creation -/
+
+/-- the create pass itself: exactly one POST of the prepared create view, Retry with the create delay -/
+theorem create_pass (c : Cfg) (t body : JVal) (he : c.createEnabled = true)
+    (hb : prepareForApi c.codec c.createView = some body) :
+    pass c t none = [⟨some body, .retry c.createDelay, [.post body]⟩] := by
+  simp [pass, passAbsent, he, hb]
+
+/-- creation with a create overlay that does not contradict the target (`noContradict`, a decidable
+    predicate on the written overlay: at target-specified paths it only descends into the target's maps or
+    writes a scalar equal to the target's; elsewhere it may add anything), owner references written
+    where ownership applies: one POST, Retry(create delay), the stored object meets the target and its
+    annotation reads back as the stripped view -/
+theorem create_reaches_target (c : Cfg) (t body : JVal) (ov : List (String × OSpec JVal)) (refs : Option JVal)
+    (h : TargetOk t) (hov : WFO ov) (hnc : noContradict t ov = true)
+    (hv : createViewOf t ov refs = some c.createView) (he : c.createEnabled = true)
+    (hb : prepareForApi c.codec c.createView = some body) (hc : c.codec.reads (strip c.createView)) :
+    pass c t none = [⟨some body, .retry c.createDelay, [.post body]⟩] ∧
+      Meets t body (strip c.createView) ∧
+      extractLastApplied c.codec body = some (strip c.createView) := by
+  have hm := create_view_meets t c.createView ov refs h.wf h.nodup h.ownerFree hov hnc hv
+  have hf := view_body_facts c.codec t c.createView body h.nodup h.annFree hm hb hc
+  exact ⟨create_pass c t body he hb, hf.1, hf.2⟩
 
 /-- a function that may not create (`create.enabled: false`) never writes for an absent object: it waits -/
 theorem no_create_when_disabled (c : Cfg) (t : JVal) (he : c.createEnabled = false) :
@@ -143,30 +179,96 @@ theorem create_plain (c : Cfg) (t : JVal) (h : TargetOk t) (hv : c.createView = 
   obtain ⟨body, hb, hf⟩ := payload_facts c.codec t h.wf h.nodup h.annFree
   exact ⟨body, by rw [hv]; exact hb, hf.meets⟩
 
+/-! ## the owner-reference branch -/
+
+/-- target met, but the parent's reference is missing (`ownerFixOf` asks for `r` to be written):
+    under update policy patch exactly one PATCH whose body is the payload of the target with those
+    references, Retry with the patch delay -/
+theorem owner_missing_patched (c : Cfg) (t live la r x body d : JVal) (hw : DirectivesWF t)
+    (hla : extractLastApplied c.codec live = some la) (hm : Meets t live la)
+    (ho : ownerFixOf c live = some (.refs r)) (hp : c.policy = .patch d)
+    (hx : setOwnerRefs r t = some x) (hb : prepareForApi c.codec x = some body) :
+    pass c t (some live) = [⟨some (mergePatch live body), .retry d, [.patch body]⟩] := by
+  simp [pass, passPresent, ho, hla, meets_implies_match t live la hw hm, OwnerFix.isNone, correct, hp, hx, hb]
+
+/-- what is written: the live references in their order plus the parent's — co-owners are preserved -/
+theorem owner_fix_keeps_co_owners (c : Cfg) (live r : JVal) (ho : ownerFixOf c live = some (.refs r)) :
+    r = .arr [c.ownerRef] ∨ ∃ xs, liveRefs live = some (.arr xs) ∧ r = .arr (xs ++ [c.ownerRef]) :=
+  ownerFix_refs_shape c live r ho
+
+/-- the body of that PATCH exists, and merge-patched into *any* live object it gives an object that
+    meets the target, whose annotation reads back, and whose owner references are exactly the written ones -/
+theorem owner_fix_reaches_target (c : Codec) (t : JVal) (rs : List JVal) (h : TargetOk t)
+    (hr : noDupB (.arr rs) = true) :
+    ∃ x body, setOwnerRefs (.arr rs) t = some x ∧ prepareForApi c x = some body ∧
+      (c.reads (strip x) → ∀ live,
+        Meets t (mergePatch live body) (strip x) ∧
+        extractLastApplied c (mergePatch live body) = some (strip x) ∧
+        liveRefs (mergePatch live body) = some (.arr (stripL rs))) := by
+  obtain ⟨x, hx, hxn, hxm⟩ := owner_view t (.arr rs) h.wf h.nodup h.ownerFree hr
+  obtain ⟨body, hb⟩ := owner_view_prepares c t (.arr rs) x h.annFree hx
+  refine ⟨x, body, hx, hb, fun hc live => ?_⟩
+  have hp := view_patch_facts c t x body h.nodup h.nonulls h.annFree hxn hxm hb hc
+  exact ⟨hp.meets live, hp.la live, refs_set_by_owner_patch c t x body rs hx hp live⟩
+
+/-- afterwards the reference is present and the next pass mutates nothing -/
+theorem owner_fix_then_quiet (c : Cfg) (t live : JVal) (ys : List JVal) (refkvs : List (String × JVal))
+    (u : String) (h : TargetOk t) (href : c.ownerRef = .obj refkvs) (hys : allObj ys = true)
+    (hu : lookup "uid" refkvs = some (.str u))
+    (hr : noDupB (.arr (ys ++ [c.ownerRef])) = true) :
+    ∃ x body, setOwnerRefs (.arr (ys ++ [c.ownerRef])) t = some x ∧ prepareForApi c.codec x = some body ∧
+      (c.codec.reads (strip x) →
+        refPresent c (mergePatch live body) = true ∧
+        pass c t (some (mergePatch live body)) =
+          [⟨some (mergePatch live body), .okLive (mergePatch live body), []⟩]) := by
+  obtain ⟨x, body, hx, hb, hall⟩ := owner_fix_reaches_target c.codec t (ys ++ [c.ownerRef]) h hr
+  refine ⟨x, body, hx, hb, fun hc => ?_⟩
+  obtain ⟨hm, hla, hrefs⟩ := hall hc live
+  have huid : pyEq (uidOf (stripO refkvs)) (uidOf refkvs) = true := by
+    simp [uidOf, lookup_stripO "uid" (by decide), hu, strip, pyEq]
+  have hpres : refPresent c (mergePatch live body) = true := by
+    unfold refPresent
+    rw [hrefs, href, stripL_append]
+    simp only [stripL, strip.eq_1, beq_iff_eq]
+    exact scanRefs_append _ _ huid _ (by rw [allObj_stripL]; exact hys)
+  exact ⟨hpres, no_mutation_at_target_co_owned c t _ _ h.wf hla hm (Or.inl hpres)⟩
+
 /-! ## no update loop -/
 
-/-- after a patch the next pass (same target; the owner reference is in place) mutates nothing -/
+/-- after a patch the next pass (same target) mutates nothing: the patch leaves the live owner
+    references alone, so a reference that was in place (co-owners or not) still is -/
 theorem no_update_loop (c : Cfg) (t live : JVal) (d : JVal) (h : TargetOk t)
-    (hc : c.codec.reads (strip t)) (hp : c.policy = .patch d) (ho : c.ownerFix = .none) :
-    ∀ r, r = correct c t live →
+    (hc : c.codec.reads (strip t)) (hp : c.policy = .patch d)
+    (ho : refPresent c live = true ∨ c.shouldOwn = false) :
+    ∀ r, r = correct c .none t live →
       ∃ live', r.cluster = some live' ∧ pass c t r.cluster = [⟨some live', .okLive live', []⟩] := by
   intro r hr
-  obtain ⟨body, hb, hall⟩ := patch_reaches_target c.codec t h hc
-  have hcor : correct c t live = ⟨some (mergePatch live body), .retry d, [.patch body]⟩ := by
-    simp [correct, hp, ho, hb, dropOwnerRefs, h.ownerFree]
+  obtain ⟨body, hb, _, hall⟩ := patch_reaches_target c.codec t h hc
+  have hcor : correct c .none t live = ⟨some (mergePatch live body), .retry d, [.patch body]⟩ := by
+    simp [correct, hp, hb, dropOwnerRefs, h.ownerFree]
   subst hr
   rw [hcor]
-  exact ⟨_, rfl, no_mutation_at_target c t _ _ h.wf (hall live).2 (hall live).1 (by simp [ownerOk, ho])⟩
+  refine ⟨_, rfl, no_mutation_at_target_co_owned c t _ _ h.wf (hall live).2 (hall live).1 ?_⟩
+  rcases ho with ho | ho
+  · left
+    have hpf := view_patch_facts c.codec t t body h.nodup h.nonulls h.annFree h.nodup
+      (meets_strip_self t h.wf h.nodup) hb hc
+    rw [refPresent_congr c live _ (refs_kept_by_target_patch c.codec t body h.ownerFree hpf live)]
+    exact ho
+  · exact Or.inr ho
 
-/-- after a create whose object meets the target the next pass mutates nothing -/
-theorem no_update_loop_after_create (c : Cfg) (t body la : JVal) (hw : DirectivesWF t)
-    (he : c.createEnabled = true) (hb : prepareForApi c.codec c.createView = some body) (hm : Meets t body la)
-    (hla : extractLastApplied c.codec body = some la) (ho : ownerOk c = true) :
+/-- after a create with a non-contradicting create overlay the next pass mutates nothing -/
+theorem no_update_loop_after_create (c : Cfg) (t body : JVal) (ov : List (String × OSpec JVal))
+    (refs : Option JVal) (h : TargetOk t) (hov : WFO ov) (hnc : noContradict t ov = true)
+    (hv : createViewOf t ov refs = some c.createView) (he : c.createEnabled = true)
+    (hb : prepareForApi c.codec c.createView = some body) (hc : c.codec.reads (strip c.createView))
+    (ho : ownerFixOf c body = some .none) :
     ∀ r ∈ pass c t none, pass c t r.cluster = [⟨some body, .okLive body, []⟩] := by
   intro r hr
-  rw [(create_reaches_target c t body la he hb hm).1, List.mem_singleton] at hr
+  obtain ⟨hpass, hm, hla⟩ := create_reaches_target c t body ov refs h hov hnc hv he hb hc
+  rw [hpass, List.mem_singleton] at hr
   subst hr
-  exact no_mutation_at_target c t body la hw hla hm ho
+  exact no_mutation_at_target c t body _ h.wf hla hm ho
 
 /-! ## non-vacuity: a concrete target with every directive, a decorated live object, a codec -/
 
@@ -205,6 +307,34 @@ example : TargetOk exTarget :=
 example : exCodec.reads (strip exTarget) := ⟨by decide, rfl⟩
 example : Meets exTarget exLive (strip exTarget) := by decide
 example : validateMatch exTarget exLive (strip exTarget) false = .ok := by decide
+/-- a create overlay that adds keys (a map the target does not have, a new key inside `spec`), descends
+    into the target's `metadata.labels` and re-writes a scalar with the target's own value -/
+def exCreateOverlay : List (String × OSpec JVal) := [
+  ("createOnly", .leaf (.str "z")),
+  ("spec", .node [("seededBy", .leaf (.obj [("who", .str "create")])), ("replicas", .leaf (.flt 16))]),
+  ("metadata", .node [("labels", .node [("tier", .leaf (.str "web"))])])]
+
+example : noContradict exTarget exCreateOverlay = true := by decide
+/-- … while one that changes a target-specified leaf is rejected -/
+example : noContradict exTarget [("spec", .node [("replicas", .leaf (.int 3))])] = false := by decide
+
+def exOwner : JVal := .obj [("kind", .str "Trigger"), ("name", .str "parent"), ("uid", .str "uid-parent")]
+def exForeign (u : String) : JVal := .obj [("kind", .str "Other"), ("uid", .str u)]
+def exCfg : Cfg := { codec := exCodec, policy := .patch (.int 7), shouldOwn := true, ownerRef := exOwner,
+                     createEnabled := true, createDelay := .int 11, createView := exTarget }
+def liveWithRefs (refs : JVal) : JVal :=
+  .obj [("metadata", .obj [("name", .str "w"), ("ownerReferences", refs)])]
+
+/-- co-owned (the parent's reference between two foreign ones): nothing to write -/
+example : refPresent exCfg (liveWithRefs (.arr [exForeign "a", exOwner, exForeign "b"])) = true := by decide
+/-- only foreign owners: the live references plus the parent's have to be written -/
+example : (match ownerFixOf exCfg (liveWithRefs (.arr [exForeign "a"])) with
+    | some (.refs (.arr xs)) => xs.length == 2 && scanRefs (.str "a") (xs.take 1) == some true &&
+        scanRefs (.str "uid-parent") (xs.drop 1) == some true
+    | _ => false) = true := by decide
+/-- a member that is not a map before any match: `_validate_owner_reffed` raises -/
+example : (ownerFixOf exCfg (liveWithRefs (.arr [.str "junk", exOwner]))).isNone = true := by decide
+
 /-- and the hypotheses are not trivially true: a changed leaf does not meet -/
 example : ¬ Meets exTarget (.obj [("spec", .obj [("replicas", .int 3)])]) .null := by decide
 
